@@ -420,6 +420,11 @@ def gen_case(rng: random.Random, P: Dict[str, Any]) -> Case:
             t = mk(s, "", "always", 0, forward_only=not P.get("loops", False))
             if t is not None and t.guard is None and rng.random() < 0.5:
                 t.guard = rng.choice(case.atoms[:natoms])
+            # (profiles that ask for it get candidate LISTS of eventless transitions)
+            for pos in range(1, rng.randint(1, P.get("max_always", 1))):
+                t2 = mk(s, "", "always", pos, forward_only=not P.get("loops", False))
+                if t2 is not None and t2.guard is None and rng.random() < 0.6:
+                    t2.guard = rng.choice(case.atoms[:natoms])
         if s.kind != "final" and s is not tree.root and rng.random() < P["p_invoke"]:
             iid = f"inv_{s.key}"
             sname = f"svc_{s.key}"
